@@ -441,10 +441,14 @@ def C11_legacy_gets_reply_full : Prop :=
     (∃ it ∈ p.items, ∃ c ∈ it.cands, suppresses (unionKnown (h.lis.deferredOf addr ++ [p])) c = false) →
     ∃ id nq a b, Out.ucast addr port id nq a b ∈ r.outs
 
-/-- **What holds (finding D35).**  … provided the datagram is not a byte-identical repeat (< 1 s) of the datagram the listener saw
-last (`Listener.repeats`: the duplicate guard compares the bytes only, not the source).  The block is any accepted block
-(`h.step … = .ok r`: the loop facts), from any host state; the reply carries the id of the first packet of the query (the deferred
-ones of this address first) and the candidate among its answers. -/
+/-- **What holds (finding D35).**  … provided the duplicate guard does not drop the datagram (`Listener.repeats … = false`: not byte-identical
+to the datagram processed last, less than a second ago, that one not a query with a QU question).  The model's listener keeps no "last
+source", so this hypothesis is the guard itself and therefore **broader than finding D35**: it excludes the repeat from the *same* sockaddr
+(which C16 wants dropped) as well as the repeat from another source (D35: which the property owes a reply); the Lean does not say which of
+the two a dropped repeat was — the oracle does (`C11:identical-bytes-other-source-unanswered` only for another `src_full`).  Untruncated
+queries only; a truncated one is `C11_truncated_legacy_gets_reply`.  The block is any accepted block (`h.step … = .ok r`: the loop
+facts), from any host state; the reply carries the id of the first packet of the query (the deferred ones of this address first) and the
+candidate among its answers. -/
 theorem C11_legacy_gets_reply_partial (h : Host) (t : Int) (addr port dataId size : Nat) (hasQu : Bool) (p : Pkt) (seen : SeenMap)
     (draws : List Int) (r : StepOut)
     (hs : h.step (.rx t addr port dataId size hasQu (.query p) seen draws) = .ok r) (hsize : size ≤ 8966) (hport : port ≠ 5353)
@@ -512,10 +516,11 @@ theorem qu_never_repeats (l : Listener) (t : Int) (dataId : Nat) (hc : l.LastCoh
   · have : (l.lastData == some dataId) = false := by simpa using hd
     simp [this]
 
-/-- **A query with a QU question gets its reply — no exception** (the duplicate guard exempts it, so this holds however many copies of
-the datagram arrive and from wherever): an untruncated query with a QU question that has an unsuppressed candidate is answered in its
-block, by the unicast datagram to its address and port, or — when the record was not multicast within a quarter of its TTL and the
-source port is 5353 — by the multicast sent at once. -/
+/-- **A query with a QU question gets its reply, however many copies of the datagram arrive and from wherever** (the duplicate guard exempts
+it) — under `LastCoherent` (the flag stored with the last bytes is the flag of those bytes: an invariant of every run whose receive events
+take the flag from the bytes, `C11_last_coherent_of_run`), for a datagram within the size limit, untruncated, in an accepted block: it is
+answered in its block, by the unicast datagram to its address and port, or — when the record was not multicast within a quarter of its TTL
+and the source port is 5353 — by the multicast sent at once. -/
 theorem C11_qu_gets_reply (h : Host) (t : Int) (addr port dataId size : Nat) (p : Pkt) (seen : SeenMap) (draws : List Int) (r : StepOut)
     (hs : h.step (.rx t addr port dataId size true (.query p) seen draws) = .ok r) (hsize : size ≤ 8966) (htc : p.truncated = false)
     (hcoh : h.lis.LastCoherent dataId true)
@@ -559,6 +564,172 @@ theorem C11_qu_gets_reply (h : Host) (t : Int) (addr port dataId size : Nat) (p 
     exact ⟨hin, hu (Dict.isEmpty_false_of_mem hin)⟩
 
 example : ({} : Host).lis.LastCoherent 7 true := by decide
+
+/-! ### `LastCoherent` is an invariant of runs whose events take "has a QU question" from the datagram's bytes (third review) -/
+
+/-- the listener's stored flag is what `hasQuOf` says of the stored bytes -/
+def Listener.Coherent (hasQuOf : Nat → Bool) (l : Listener) : Prop := ∀ d, l.lastData = some d → l.lastMsgQu = some (hasQuOf d)
+
+/-- the event hands the model the flag of its datagram: "has a QU question" is a function of the bytes (`hasQuFlag` of the question section) -/
+def Ev.FlagOfBytes (hasQuOf : Nat → Bool) : Ev → Prop
+  | .rx _ _ _ dataId _ hasQu _ _ _ => hasQu = hasQuOf dataId
+  | _ => True
+
+theorem assemble_lis {h : Host} {clock : Int} {pkts : List Pkt} {addr port : Nat} {seen : SeenMap} {draws : List Int}
+    {r : StepOut} {rest : List Int} (hs : h.assemble clock pkts addr port seen draws = .ok (r, rest)) : r.host.lis = h.lis := by
+  unfold Host.assemble at hs
+  cases hh : pkts.head? with
+  | none => rw [hh] at hs; simp at hs
+  | some first =>
+    rw [hh] at hs
+    cases hqa : asyncResponse pkts (Gen.Reply.ucast_source port) seen with
+    | none => simp only [hqa, Except.ok.injEq, Prod.mk.injEq] at hs; rw [← hs.1]
+    | some qa => exact (assemble_spec (by unfold Host.assemble; rw [hh]; exact hs) hqa).choose_spec.2.2.1
+
+theorem take_last (l : Listener) (msg : Option Pkt) (a : Nat) :
+    (l.take msg a).1.lastData = l.lastData ∧ (l.take msg a).1.lastMsgQu = l.lastMsgQu := ⟨rfl, rfl⟩
+
+theorem defer_last (l : Listener) (t : Int) (a port : Nat) (p : Pkt) (d : Int) :
+    (l.defer t a port p d).lastData = l.lastData ∧ (l.defer t a port p d).lastMsgQu = l.lastMsgQu := by
+  unfold Listener.defer Listener.cancelTimer Listener.setDeferred
+  split <;> exact ⟨rfl, rfl⟩
+
+/-- one accepted block keeps the listener coherent -/
+theorem step_coherent (hasQuOf : Nat → Bool) {h : Host} {e : Ev} {r : StepOut} (hs : h.step e = .ok r)
+    (he : e.FlagOfBytes hasQuOf) (hc : h.lis.Coherent hasQuOf) : r.host.lis.Coherent hasQuOf := by
+  obtain ⟨a, hd, hp⟩ := step_decide hs
+  -- the listener the action carries is either the old one or the old one with this datagram's bytes and flag stored
+  have key : ∀ lis : Listener, (lis.lastData = h.lis.lastData ∧ lis.lastMsgQu = h.lis.lastMsgQu) ∨
+      (∃ d, lis.lastData = some d ∧ lis.lastMsgQu = some (hasQuOf d)) → lis.Coherent hasQuOf := by
+    intro lis hl d hd'
+    rcases hl with ⟨h1, h2⟩ | ⟨d', h1, h2⟩
+    · rw [h2]; exact hc d (h1 ▸ hd')
+    · rw [h1] at hd'; cases hd'; exact h2
+  cases e with
+  | qfire t dl =>
+    obtain rfl := decide_qfire hd
+    rw [(perform_ready hp).1]; exact hc
+  | qremove t dl recs =>
+    simp only [Host.decide, Except.ok.injEq] at hd
+    subst hd
+    rw [(perform_remove hp).2.1]; exact hc
+  | tcfire t addr seen draws =>
+    simp only [Host.decide] at hd
+    split at hd
+    · cases hd
+    · split at hd
+      · cases hd
+      · simp only [Except.ok.injEq] at hd
+        subst hd
+        obtain ⟨rest, ha⟩ := perform_answer hp
+        rw [assemble_lis ha]
+        exact key _ (Or.inl (take_last h.lis none addr))
+  | rx t addr port dataId size hasQu kind seen draws =>
+    simp only [Ev.FlagOfBytes] at he
+    subst he
+    simp only [Host.decide] at hd
+    split at hd
+    · simp only [Except.ok.injEq] at hd; subst hd
+      rw [(perform_idle hp).1]; exact hc
+    · split at hd
+      · simp only [Except.ok.injEq] at hd; subst hd
+        rw [(perform_idle hp).1]; exact hc
+      · have hnew : ∀ lis : Listener, (lis.lastData = some dataId ∧ lis.lastMsgQu = some (hasQuOf dataId)) → lis.Coherent hasQuOf :=
+          fun lis hl => key lis (Or.inr ⟨dataId, hl.1, hl.2⟩)
+        cases kind with
+        | invalid =>
+          simp only [Except.ok.injEq] at hd; subst hd
+          rw [(perform_idle hp).1]; exact hnew _ ⟨rfl, rfl⟩
+        | response =>
+          simp only [Except.ok.injEq] at hd; subst hd
+          rw [(perform_idle hp).1]; exact hnew _ ⟨rfl, rfl⟩
+        | query p =>
+          simp only at hd
+          split at hd
+          · cases hd
+          · split at hd
+            · simp only [Except.ok.injEq] at hd; subst hd
+              obtain ⟨rest, ha⟩ := perform_answer hp
+              rw [assemble_lis ha]
+              exact hnew _ ⟨rfl, rfl⟩
+            · split at hd
+              · simp only [Except.ok.injEq] at hd; subst hd
+                rw [(perform_idle hp).1]; exact hnew _ ⟨rfl, rfl⟩
+              · split at hd
+                · cases hd
+                · split at hd
+                  · cases hd
+                  · simp only [Except.ok.injEq] at hd; subst hd
+                    rw [(perform_defer hp).1]
+                    exact hnew _ ⟨(defer_last _ _ _ _ _ _).1, (defer_last _ _ _ _ _ _).2⟩
+
+/-- **`LastCoherent` holds in every state a run reaches** from the initial host, whatever the events, as long as each receive event's
+flag is the flag of its bytes — so the hypothesis `hcoh` of `C11_qu_gets_reply` is a fact about runs, not an assumption about states -/
+theorem C11_last_coherent_of_run (hasQuOf : Nat → Bool) {h : Host} {c : Int} {evs : List Ev} {h' : Host} {c' : Int} {tr : List (Ev × StepOut)}
+    (hr : HRun h c evs h' c' tr) (hev : ∀ e ∈ evs, e.FlagOfBytes hasQuOf) (hc : h.lis.Coherent hasQuOf) :
+    h'.lis.Coherent hasQuOf ∧ ∀ x ∈ traceStates h tr, x.1.lis.Coherent hasQuOf := by
+  induction hr with
+  | nil h c => exact ⟨hc, by intro x hx; cases hx⟩
+  | @cons h clock e es r h' c' tr _ hs _ ih =>
+    have h1 := step_coherent hasQuOf hs (hev e (by simp)) hc
+    obtain ⟨i1, i2⟩ := ih (fun e' he' => hev e' (by simp [he'])) h1
+    refine ⟨i1, ?_⟩
+    intro x hx
+    simp only [traceStates, List.mem_cons] at hx
+    rcases hx with rfl | hx
+    · exact hc
+    · exact i2 x hx
+
+theorem coherent_init (hasQuOf : Nat → Bool) : ({} : Host).lis.Coherent hasQuOf := by intro d hd; cases hd
+
+/-- what `C11_qu_gets_reply` asks of the state, from coherence and the event's own flag -/
+theorem lastCoherent_of_coherent {hasQuOf : Nat → Bool} {l : Listener} (hc : l.Coherent hasQuOf) {dataId : Nat} {hasQu : Bool}
+    (he : hasQu = hasQuOf dataId) : l.LastCoherent dataId hasQu := by
+  intro hd; rw [he]; exact hc dataId hd
+
+/-! ### a truncated legacy query is answered when its hold ends -/
+
+/-- **A truncated query from a source port other than 5353 gets its unicast reply too** — when the hold ends: in the block of the
+truncated-query timer of its address (any accepted block, any host state; that exactly one such timer is armed 400–500 ms after the
+last distinct packet and fires when due is C12's `C12_tc_hold`, `C12_host_invariant` and the loop facts), the packets held for the
+address are answered together and every unsuppressed candidate of every question of every held packet is in the unicast datagram
+to the address and the port the last held packet came from (`tm.port`), with the id of the first held packet. -/
+theorem C11_truncated_legacy_gets_reply (h : Host) (t : Int) (addr : Nat) (seen : SeenMap) (draws : List Int) (r : StepOut)
+    (hs : h.step (.tcfire t addr seen draws) = .ok r)
+    {p : Pkt} (hp : p ∈ h.lis.deferredOf addr) {it : QItem} (hit : it ∈ p.items) {c : Cand} (hc : c ∈ it.cands)
+    (hsup : suppresses (unionKnown (h.lis.deferredOf addr)) c = false) :
+    ∃ tm first qa, h.lis.timers.find? (fun tm => tm.addr == addr) = some tm ∧ tm.due = t ∧
+      (h.lis.deferredOf addr).head? = some first ∧
+      asyncResponse (h.lis.deferredOf addr) (Gen.Reply.ucast_source tm.port) seen = some qa ∧
+      (tm.port ≠ 5353 → c.id ∈ qa.ucast.keys ∧
+        Out.ucast addr tm.port first.id first.nq qa.ucast.keys (additionalsOf qa.ucast) ∈ r.outs) := by
+  obtain ⟨a, hd, hperf⟩ := step_decide hs
+  simp only [Host.decide] at hd
+  split at hd
+  · cases hd
+  · rename_i tm htm
+    split at hd
+    · cases hd
+    · rename_i hdue
+      simp only [Except.ok.injEq] at hd
+      subst hd
+      obtain ⟨rest, ha⟩ := perform_answer hperf
+      have hpk : (h.lis.take none addr).2 = h.lis.deferredOf addr := by rw [take_pkts]; simp
+      rw [hpk] at ha
+      obtain ⟨qa, hqa⟩ := asyncResponse_isSome (Gen.Reply.ucast_source tm.port) seen hp hit
+      have hqa' : asyncResponse (h.lis.deferredOf addr) (Gen.Reply.ucast_source tm.port) (Ev.tcfire t addr seen draws).seen = some qa := hqa
+      obtain ⟨first, hf, ho, _⟩ := assemble_spec ha hqa'
+      refine ⟨tm, first, qa, htm, by simpa using hdue, hf, hqa, ?_⟩
+      intro hport
+      have hus : Gen.Reply.ucast_source (tm.port : Int) = true := (GenFacts.ucast_source _).mpr (by omega)
+      have hkey : c.id ∈ (answerSet (unionKnown (h.lis.deferredOf addr)) it).keys := answerSet_has _ _ _ hc hsup
+      have hqa0 := hqa
+      rw [hus] at hqa0
+      have hu := (query_legacy_us hqa0 hp hit c.id hkey).1
+      refine ⟨hu, ?_⟩
+      rw [ho]
+      have hne : qa.ucast.isEmpty = false := Dict.isEmpty_false_of_mem hu
+      simp [immediateOuts, hne, hus, GenFacts.ans_echo_questions]
 
 /-! ### finding D36: deferral is keyed by the address alone -/
 
